@@ -419,17 +419,104 @@ fn pairs_sweep(tier: Tier) -> Sweep {
     .with_post_abort(move |idx, kind| abort_for(&[&t3[(idx / n) as usize].1, &t3[(idx % n) as usize].1], kind))
 }
 
+// One hole written at several binder depths, under a context that mixes parameters and definitions:
+// `(x : ?H) -> ?H`, `(x : ?H) -> (y : ?H) -> ?H`, `?H -> int -> ?H` against the same shape over every
+// choice of context variables and base types. The first occurrence fixes the solution; the later ones
+// (non-zero shift) compare the recorded solution, seen from a deeper scope, with another term — every
+// lookup of a context entry on the way has to land on the right entry.
+fn depth_sweep() -> Sweep {
+    use crate::props::c18::{Block, materialise, wrap_term};
+    let entry = |k: usize, pos: usize| -> Block {
+        let n = |s: &str| -> Rc<str> { Rc::from(format!("{s}{pos}")) };
+        match k {
+            0 => Block::Param(n("a"), false, rc(M::Type)),
+            1 => Block::Group(vec![(n("t"), rc(M::Type), rc(M::Int))]),
+            2 => Block::Group(vec![(n("u"), rc(M::Type), rc(M::Bool))]),
+            _ => Block::Param(n("n"), false, rc(M::Int)),
+        }
+    };
+    // contexts: every sequence of 1..3 entries
+    let mut contexts: Vec<Vec<usize>> = vec![];
+    for len in 1..=3usize {
+        for code in 0..4usize.pow(len as u32) {
+            contexts.push((0..len).map(|i| (code / 4usize.pow(i as u32)) % 4).collect());
+        }
+    }
+    let contexts = Rc::new(contexts);
+    let c2 = contexts.clone();
+    Sweep::new(
+        "one hole at several binder depths under contexts of parameters and definitions",
+        contexts.len() as u64,
+        move |idx| {
+            let ctx = &contexts[idx as usize];
+            let blocks: Vec<Block> = ctx.iter().enumerate().map(|(i, k)| entry(*k, i)).collect();
+            let n = ctx.len();
+            // components: context variables (index from the innermost) and base types
+            let mut pool: Vec<M> = (0..n).map(|i| M::Var(Rc::from(format!("v{}", n - 1 - i)), i)).collect();
+            pool.extend([M::Int, M::Bool, M::Type]);
+            let up = |m: &M, by: usize| crate::model::mterm::shift(m, 0, by as isize).unwrap();
+            let x: Rc<str> = Rc::from("x");
+            let y: Rc<str> = Rc::from("y");
+            let pi = |name: &Rc<str>, a: M, b: M| M::Pi(name.clone(), false, rc(a), rc(b));
+            let mut problems: Vec<(M, M)> = vec![];
+            for a in &pool {
+                for b in &pool {
+                    problems.push((pi(&x, M::Hole(0, 0), M::Hole(0, 1)), pi(&x, a.clone(), up(b, 1))));
+                    problems.push((pi(&x, M::Hole(0, 0), pi(&y, M::Int, M::Hole(0, 2))), pi(&x, a.clone(), pi(&y, M::Int, up(b, 2)))));
+                    for c in &pool {
+                        problems.push((pi(&x, M::Hole(0, 0), pi(&y, M::Hole(0, 1), M::Hole(0, 2))), pi(&x, a.clone(), pi(&y, up(b, 1), up(c, 2)))));
+                    }
+                }
+            }
+            for (pat, inst) in problems {
+                for swap in [false, true] {
+                    count!("unify_calls");
+                    count!("evaluations");
+                    count!("depth_problems");
+                    let (_, mut dc) = materialise(&blocks);
+                    let base = dc.len();
+                    let mut cells = Default::default();
+                    let (rp, ri) = (to_real(&pat, &mut cells), to_real(&inst, &mut cells));
+                    let r = if swap { bind::guard(|| crate::unifier::unify(&ri, &rp, &mut dc)) } else { bind::guard(|| crate::unifier::unify(&rp, &ri, &mut dc)) };
+                    let d = || format!("unify({}, {}){} under the context {}", pat.show(), inst.show(), if swap { " (arguments swapped)" } else { "" }, wrap_term(&blocks, &M::Lit(0.into())).show());
+                    if dc.len() != base {
+                        violation("context-not-restored", &d(), &format!("{base} entries"), &format!("{}", dc.len()));
+                        continue;
+                    }
+                    match r {
+                        Err(m) => violation("unify-panic", &d(), "a verdict", &m),
+                        Ok(false) => count!("unify_false"),
+                        Ok(true) => {
+                            count!("unify_true");
+                            let (sp, si) = (mirror(&rp), mirror(&ri));
+                            match typing::convertible_closed(&wrap_term(&blocks, &sp), &wrap_term(&blocks, &si), sem::TYPING_FUEL) {
+                                Conv::Equal => {
+                                    count!("consistent");
+                                    count!("nontrivial");
+                                }
+                                Conv::Unknown => count!("skipped_fuel"),
+                                Conv::Different => violation("inconsistent-success", &d(), "convertible terms once the solution is filled in", &format!("{} vs {}", sp.show(), si.show())),
+                            }
+                        }
+                    }
+                }
+            }
+        },
+        move |idx| format!("context kinds {:?}", c2[idx as usize]),
+    )
+}
+
 impl Prop for C12 {
     fn id(&self) -> &'static str {
         "C12"
     }
     fn sweeps(&self, tier: Tier) -> Vec<Sweep> {
-        vec![punch_sweep(tier), pairs_sweep(tier), crate::props::c18::unify_under_context_sweep(tier)]
+        vec![punch_sweep(tier), pairs_sweep(tier), crate::props::c18::unify_under_context_sweep(tier), depth_sweep()]
     }
     fn evidence(&self, tier: Tier) -> EvidenceSpec {
         EvidenceSpec {
             level: "exploration",
-            rule: "instances = every closed type-directed term up to the size bound; patterns = the instance with a hole punched at every position with every shift 0..binder depth (both argument orders), and with two holes (distinct cells and the same cell twice) at every pair of the first 9 positions; two holed copies of the instance against each other (a different cell on each side, every ordered pair of the first 8 positions, five shift combinations); every ordered pair of the N smallest terms, hole-free and with a hole punched at each of the first 6 positions of either (shift 0 and shift = depth: scope-escape configurations), and the same cell on both sides (occurs-check configurations), and chained occurs-check configurations (?0 ?1) against (a[?1] b[?0]) for the first 4 x 4 positions of every ordered pair, where the cycle closes only through an earlier solution (judged for termination, acyclicity, scope and context only: the application node is ill-typed by construction); the same under contexts with parameters and definitions (see C18). Whenever the real unify returns true: following the recorded solutions must terminate, every solution's free variables must lie below (depth - shift) of every occurrence of its hole, every unresolved hole (also inside a recorded solution) must keep one definite, non-negative home depth, the two terms with solutions filled in must be convertible in the reference, and the definitions context must be as before. `false` is never a violation on a holed pair. evaluations = unification problems; non-trivial = successful unifications confirmed consistent".to_owned(),
+            rule: "instances = every closed type-directed term up to the size bound; patterns = the instance with a hole punched at every position with every shift 0..binder depth (both argument orders), and with two holes (distinct cells and the same cell twice) at every pair of the first 9 positions; two holed copies of the instance against each other (a different cell on each side, every ordered pair of the first 8 positions, five shift combinations); every ordered pair of the N smallest terms, hole-free and with a hole punched at each of the first 6 positions of either (shift 0 and shift = depth: scope-escape configurations), and the same cell on both sides (occurs-check configurations), and chained occurs-check configurations (?0 ?1) against (a[?1] b[?0]) for the first 4 x 4 positions of every ordered pair, where the cycle closes only through an earlier solution (judged for termination, acyclicity, scope and context only: the application node is ill-typed by construction); the same under contexts with parameters and definitions (see C18); and one hole written at two and three binder depths ((x : ?H) -> ?H, (x : ?H) -> (y : ?H) -> ?H, ?H -> int -> ?H) against the same shapes over every choice of context variables and base types, under every context of one to three entries drawn from a type parameter, an integer parameter and the definitions t = int, u = bool (43 k problems, both argument orders). Whenever the real unify returns true: following the recorded solutions must terminate, every solution's free variables must lie below (depth - shift) of every occurrence of its hole, every unresolved hole (also inside a recorded solution) must keep one definite, non-negative home depth, the two terms with solutions filled in must be convertible in the reference, and the definitions context must be as before. `false` is never a violation on a holed pair. evaluations = unification problems; non-trivial = successful unifications confirmed consistent".to_owned(),
             assumptions: vec![
                 "reference conversion (NbE with fuel); Unknown is skipped".to_owned(),
                 "inconsistent successes during which hook H2 counted a hole copy are instances of the known finding F-HOLE-COPY".to_owned(),
